@@ -692,8 +692,67 @@ APP_CASES_SERVER = (['handler-%s-raises%s' % (m, a) for m in ('request_response'
 APP_CASES_CLIENT = ['stream-subscriber-raises-S', 'stream-subscriber-raises-N', 'stream-subscriber-raises-C', 'stream-subscriber-raises-E']
 
 
+def lease_hostile_cases(part):
+    """A client that honours leases, with requests parked in its lease queue, receives LEASE frames it cannot fully act on
+    (expired on arrival, zero permits, fewer permits than parked requests, huge values): handling terminates, the peer's own
+    request is still served, and a proper LEASE afterwards releases the parked requests in order."""
+    from rsocket.helpers import create_future
+    hostile = {'ttl0': R.enc_lease(0, 10), 'count0': R.enc_lease(60000, 0), 'fewer-than-parked': R.enc_lease(60000, 1),
+               'huge': R.enc_lease(0x7FFFFFFF, 0x7FFFFFFF), 'ttl0-count0': R.enc_lease(0, 0)}
+    for flavour in ('tcp', 'msg'):
+        for name, raw in hostile.items():
+            for parked in (1, 2, 3):
+                tag = 'client/%s lease-%s parked=%d' % (flavour, name, parked)
+                wit = {'kind': 'lease-hostile', 'flavour': flavour, 'name': name, 'parked': parked}
+
+                def go():
+                    s = Solo('client', flavour, honor_lease=True, beh={'request_response': lambda h, p: create_future(P(b'pong'))})
+                    try:
+                        v = []
+                        s.peer(R.enc_lease(60000, 1))
+                        futs = [watch_future(s.w, s.ep, 'rr%d' % i, s.sock.request_response(P(b'q%d' % i))) for i in range(parked + 1)]
+                        s.settle()
+                        first = [f for f in s.sent() if f.type == R.REQUEST_RESPONSE]
+                        if len(first) != 1:
+                            return [('C12.harness', 'C12.harness | lease-setup', 'expected one request on the wire, saw %s' % first)], 'setup'
+                        mark = len(s.log)
+                        s.peer(raw)
+                        alive = s.tasks_alive()
+                        if not alive['receiver'] or not alive['sender']:
+                            v.append(('C12.tasks-alive', 'C12.tasks-alive | client-lease/%s | %s' % ('+'.join(k for k, a in alive.items() if not a), name), 'endpoint tasks after the LEASE: %s' % alive))
+                            return v, 'dead'
+                        s.peer(R.enc_request(R.REQUEST_RESPONSE, 2, b'ping'))
+                        got = s.sent_on(2, mark)
+                        if not (len(got) == 1 and got[0].type == R.PAYLOAD and bytes(got[0].data) == b'pong'):
+                            v.append(('C12.fresh-probe-served', 'C12.fresh-probe-served | client-lease/serves-peer-request | %s' % name, 'peer request after the LEASE answered with %s' % got))
+                        s.peer(R.enc_lease(60000, 10))
+                        reqs = [f for f in s.sent() if f.type == R.REQUEST_RESPONSE]
+                        if [bytes(f.data) for f in reqs] != [b'q%d' % i for i in range(parked + 1)]:
+                            v.append(('C12.fresh-probe-served', 'C12.fresh-probe-served | client-lease/parked-released | %s' % name,
+                                      'after a proper LEASE the requests on the wire are %s' % [bytes(f.data) for f in reqs]))
+                        else:
+                            for f in reqs:
+                                s.peer(R.enc_payload(f.sid, b'R', complete=True))
+                            if any(x['state'] != 'result' for x in futs):
+                                v.append(('C12.fresh-probe-served', 'C12.fresh-probe-served | client-lease/answers | %s' % name, 'awaitables: %s' % [x['state'] for x in futs]))
+                        return v, 'ok'
+                    finally:
+                        s.teardown()
+
+                r = run_guarded(go, tag)
+                v, outc = (r, 'no-termination') if isinstance(r, list) else r
+                part.evaluations += 1
+                part.traces += 1
+                part.transitions += 4
+                part.state(('lease-hostile', flavour, name, parked, outc))
+                part.nontriv(('lease-hostile', flavour, name, parked))
+                for rule, sig, detail in v:
+                    part.violate(rule, sig, detail, wit)
+    part.sample({'kind': 'lease-hostile', 'leases': sorted(hostile)}, limit=1)
+
+
 def make_units(tier):
-    units = []
+    units = [{'kind': 'lease-hostile', 'role': 'client', 'flavour': 'tcp', 'tier': tier}]
     combos = (('server', 'tcp'), ('client', 'msg')) if tier == 'quick' else (('server', 'tcp'), ('server', 'msg'), ('client', 'tcp'), ('client', 'msg'))
     for role, flavour in combos:
         for t in range(64):
@@ -729,6 +788,8 @@ def bounds(tier):
 
 def run_unit(unit, part):
     tier = unit['tier']
+    if unit['kind'] == 'lease-hostile':
+        return lease_hostile_cases(part)
     role, flavour = unit['role'], unit['flavour']
     if unit['kind'] == 'header':
         t = unit['type']
